@@ -16,6 +16,7 @@ import (
 	"sort"
 	"strings"
 	"sync/atomic"
+	"time"
 
 	"github.com/compose-spec/compose-go/v2/types"
 
@@ -466,7 +467,7 @@ func c15JudgeDet(args, real, _ json.RawMessage) *core.Verdict {
 }
 
 func init() {
-	core.Register("c15hist", &core.CheckDef{Real: c15RealHist, DriverOp: "c15hist", DriverArgs: c15DriverArgs, Judge: c15JudgeHist})
-	core.Register("c15det", &core.CheckDef{Real: c15RealDet, Judge: c15JudgeDet})
+	core.Register("c15hist", &core.CheckDef{Real: c15RealHist, DriverOp: "c15hist", DriverArgs: c15DriverArgs, Judge: c15JudgeHist, Timeout: 60 * time.Second})
+	core.Register("c15det", &core.CheckDef{Real: c15RealDet, Judge: c15JudgeDet, Timeout: 60 * time.Second})
 	core.RegisterProp("C15", runC15)
 }
